@@ -4,88 +4,175 @@ Import ListNotations.
 From LCC Require Import Base.Util Model.PyVal Model.Matcher gen.TablesMatchers Model.Describe Proofs.MatcherP.
 
 (* the operand loop of AllOf / AnyOf.build_description *)
-Definition descs_loop (ni : not_impl) :=
+Definition descs_loop (ni : not_impl) (cw : comp_words) :=
   fix descs (ms : list matcher) (t : transf) : list str * transf :=
     match ms with
     | [] => ([], t)
-    | m' :: r => let '(s, t1) := describe_st ni m' t in let '(ss, t2) := descs r t1 in (s :: ss, t2)
+    | m' :: r => let '(s, t1) := describe_st ni cw m' t in let '(ss, t2) := descs r t1 in (s :: ss, t2)
     end.
 
-Lemma describe_all_of : forall ni ms t, describe_st ni (AllOf ms) t = composite (descs_loop ni) ms rel_and t.
+Lemma describe_all_of : forall ni cw ms t, describe_st ni cw (AllOf ms) t = composite (descs_loop ni cw) ms (rel_all cw t) t.
 Proof. reflexivity. Qed.
 
-Lemma describe_any_of : forall ni ms t, describe_st ni (AnyOf ms) t = composite (descs_loop ni) ms rel_or t.
+Lemma describe_any_of : forall ni cw ms t, describe_st ni cw (AnyOf ms) t = composite (descs_loop ni cw) ms (rel_any cw t) t.
 Proof. reflexivity. Qed.
 
 Lemma flip_flip : forall t, flip (flip t) = t.
 Proof. intros [c n]. unfold flip. simpl. rewrite negb_involutive. reflexivity. Qed.
 
 (* when every operand leaves the transformer as it found it, the loop yields the operands' stand-alone descriptions *)
-Lemma descs_loop_pure : forall ni ms,
-  Forall (fun m => forall t, snd (describe_st ni m t) = t) ms ->
-  forall t, descs_loop ni ms t = (map (fun m => fst (describe_st ni m t)) ms, t).
+Lemma descs_loop_pure : forall ni cw ms,
+  Forall (fun m => forall t, snd (describe_st ni cw m t) = t) ms ->
+  forall t, descs_loop ni cw ms t = (map (fun m => fst (describe_st ni cw m t)) ms, t).
 Proof.
-  intros ni ms H. induction H as [|m ms Hm Hms IH]; intro t; simpl; auto.
-  specialize (Hm t). destruct (describe_st ni m t) as [s t1]. simpl in Hm. subst t1.
+  intros ni cw ms H. induction H as [|m ms Hm Hms IH]; intro t; simpl; auto.
+  specialize (Hm t). destruct (describe_st ni cw m t) as [s t1]. simpl in Hm. subst t1.
   rewrite IH. reflexivity.
 Qed.
 
 
-Lemma composite_layout : forall ni ms rel t,
-  Forall (fun m => forall t, snd (describe_st ni m t) = t) ms ->
-  composite (descs_loop ni) ms rel t = (layout ms rel (map (fun m => fst (describe_st ni m t)) ms), t).
+Lemma composite_layout : forall ni cw ms rel t,
+  Forall (fun m => forall t, snd (describe_st ni cw m t) = t) ms ->
+  composite (descs_loop ni cw) ms rel t = (layout ms rel (map (fun m => fst (describe_st ni cw m t)) ms), t).
 Proof.
-  intros ni ms rel t H. unfold composite, layout.
-  pose proof (descs_loop_pure ni ms H) as E. rewrite !E.
+  intros ni cw ms rel t H. unfold composite, layout.
+  pose proof (descs_loop_pure ni cw ms H) as E. rewrite !E.
   destruct (existsb is_composite ms); auto.
-  destruct (existsb has_newline (map (fun m => fst (describe_st ni m t)) ms)); rewrite ?E; auto.
-  destruct (Nat.ltb sl_limit (List.length (join (fill sl_join_format [rel]) (map (fun m => fst (describe_st ni m t)) ms)))); rewrite ?E; auto.
-  destruct (join (fill sl_join_format [rel]) (map (fun m => fst (describe_st ni m t)) ms)); rewrite ?E; auto.
+  destruct (existsb has_newline (map (fun m => fst (describe_st ni cw m t)) ms)); rewrite ?E; auto.
+  destruct (Nat.ltb sl_limit (List.length (join (fill sl_join_format [rel]) (map (fun m => fst (describe_st ni cw m t)) ms)))); rewrite ?E; auto.
+  destruct (join (fill sl_join_format [rel]) (map (fun m => fst (describe_st ni cw m t)) ms)); rewrite ?E; auto.
 Qed.
 
-(* C17_transformer_preserved (for the NotFresh implementation of Not) *)
-Lemma transformer_preserved : forall m t, snd (describe_st NotFresh m t) = t.
+(* C17_transformer_preserved (for the NotFresh implementation of Not; whatever the relationship words are) *)
+Lemma transformer_preserved : forall cw m t, snd (describe_st NotFresh cw m t) = t.
 Proof.
-  induction m using matcher_ind'; intro tr; try reflexivity.
-  - simpl. destruct (describe_st NotFresh m conjugated). reflexivity.
-  - simpl. destruct (describe_st NotFresh m conjugated). reflexivity.
-  - simpl. destruct (describe_st NotFresh m conjugated). reflexivity.
-  - simpl. destruct vm as [m'|]; auto. destruct (describe_st NotFresh m' conjugated). reflexivity.
-  - simpl. destruct vm as [m'|]; auto. destruct (describe_st NotFresh m' conjugated). reflexivity.
+  intro cw. induction m using matcher_ind'; intro tr; try reflexivity.
+  - simpl. destruct (describe_st NotFresh cw m conjugated). reflexivity.
+  - simpl. destruct (describe_st NotFresh cw m conjugated). reflexivity.
+  - simpl. destruct (describe_st NotFresh cw m conjugated). reflexivity.
+  - simpl. destruct vm as [m'|]; auto. destruct (describe_st NotFresh cw m' conjugated). reflexivity.
+  - simpl. destruct vm as [m'|]; auto. destruct (describe_st NotFresh cw m' conjugated). reflexivity.
   - rewrite describe_all_of, composite_layout; auto.
   - rewrite describe_any_of, composite_layout; auto.
-  - simpl. destruct (describe_st NotFresh m (flip tr)). reflexivity.
+  - simpl. destruct (describe_st NotFresh cw m (flip tr)). reflexivity.
   - simpl. destruct d; auto.
 Qed.
 
-Lemma all_preserved : forall ms, Forall (fun m => forall t, snd (describe_st NotFresh m t) = t) ms.
-Proof. intro ms. apply Forall_forall. intros m _. apply transformer_preserved. Qed.
+Lemma all_preserved : forall cw ms, Forall (fun m => forall t, snd (describe_st NotFresh cw m t) = t) ms.
+Proof. intros cw ms. apply Forall_forall. intros m _. apply transformer_preserved. Qed.
 
 (* C17_sibling_independent *)
-Lemma sibling_independent : forall ms t,
-  describe_st NotFresh (AllOf ms) t = (layout ms rel_and (map (fun m => fst (describe_st NotFresh m t)) ms), t) /\
-  describe_st NotFresh (AnyOf ms) t = (layout ms rel_or (map (fun m => fst (describe_st NotFresh m t)) ms), t).
+Lemma sibling_independent : forall cw ms t,
+  describe_st NotFresh cw (AllOf ms) t = (layout ms (rel_all cw t) (map (fun m => fst (describe_st NotFresh cw m t)) ms), t) /\
+  describe_st NotFresh cw (AnyOf ms) t = (layout ms (rel_any cw t) (map (fun m => fst (describe_st NotFresh cw m t)) ms), t).
 Proof.
   intros. rewrite describe_all_of, describe_any_of. split; apply composite_layout; apply all_preserved.
 Qed.
 
-Lemma describe_not : forall m t, describe_st NotFresh (Not m) t = (fst (describe_st NotFresh m (flip t)), t).
-Proof. intros. simpl. destruct (describe_st NotFresh m (flip t)). reflexivity. Qed.
+Lemma describe_not : forall cw m t, describe_st NotFresh cw (Not m) t = (fst (describe_st NotFresh cw m (flip t)), t).
+Proof. intros. simpl. destruct (describe_st NotFresh cw m (flip t)). reflexivity. Qed.
 
-Lemma double_negation_wording : forall m t, describe_st NotFresh (Not (Not m)) t = describe_st NotFresh m t.
+Lemma double_negation_wording : forall cw m t, describe_st NotFresh cw (Not (Not m)) t = describe_st NotFresh cw m t.
 Proof.
   intros. rewrite !describe_not. simpl. rewrite flip_flip.
-  pose proof (transformer_preserved m t) as H. destruct (describe_st NotFresh m t) as [s t']. simpl in *. subst. reflexivity.
+  pose proof (transformer_preserved cw m t) as H. destruct (describe_st NotFresh cw m t) as [s t']. simpl in *. subst. reflexivity.
 Qed.
 
-Lemma negation_follows_logic : forall m t v,
-  fst (describe_st NotFresh (Not m) t) = fst (describe_st NotFresh m (flip t)) /\
-  truth (matches (Not m) v) = rmap negb (truth (matches m v)).
-Proof. intros. split. rewrite describe_not. reflexivity. apply not_exact. Qed.
+(* ------------------------------------------------------------------ negation: wording follows logic (De Morgan, F9b repaired) *)
+(* the words of a composite follow De Morgan: under a negative transformer all_of uses the word of any_of and conversely *)
+Definition de_morgan_words (cw : comp_words) : Prop := cw_all_neg cw = cw_any cw /\ cw_any_neg cw = cw_all cw.
+
+Lemma rel_all_flip : forall cw t, de_morgan_words cw -> rel_all cw (flip t) = rel_any cw t.
+Proof. intros cw [c n] [Ha Hb]. unfold rel_all, rel_any, flip. simpl. destruct n; simpl; congruence. Qed.
+
+Lemma rel_any_flip : forall cw t, de_morgan_words cw -> rel_any cw (flip t) = rel_all cw t.
+Proof. intros cw [c n] [Ha Hb]. unfold rel_all, rel_any, flip. simpl. destruct n; simpl; congruence. Qed.
+
+Lemma not_is_not_composite : forall ms, existsb is_composite (map Not ms) = false.
+Proof. induction ms as [|m ms IH]; simpl; auto. Qed.
+
+Lemma layout_operands_irrelevant : forall ms ms' rel ds,
+  existsb is_composite ms = existsb is_composite ms' -> layout ms rel ds = layout ms' rel ds.
+Proof. intros ms ms' rel ds H. unfold layout. rewrite H. reflexivity. Qed.
+
+(* the descriptions of the operands of not_(all_of ms) are those of the operands of any_of (map not_ ms) *)
+Lemma negated_operands : forall cw ms t,
+  map (fun m => fst (describe_st NotFresh cw m (flip t))) ms = map (fun m => fst (describe_st NotFresh cw (Not m) t)) ms.
+Proof. intros. apply map_ext. intro m. rewrite describe_not. reflexivity. Qed.
+
+Lemma mapped_operands : forall cw ms t,
+  map (fun m => fst (describe_st NotFresh cw m t)) (map Not ms) = map (fun m => fst (describe_st NotFresh cw (Not m) t)) ms.
+Proof. intros. rewrite map_map. reflexivity. Qed.
+
+(* general form: same relationship word, same operand descriptions; only the "an operand is itself a composite" test of the
+   layout sees different objects (all_of / any_of on one side, Not objects on the other) *)
+Lemma de_morgan_layout : forall cw ms t, de_morgan_words cw ->
+  let ds := map (fun m => fst (describe_st NotFresh cw (Not m) t)) ms in
+  describe_st NotFresh cw (Not (AllOf ms)) t = (layout ms (rel_any cw t) ds, t) /\
+  describe_st NotFresh cw (AnyOf (map Not ms)) t = (layout (map Not ms) (rel_any cw t) ds, t) /\
+  describe_st NotFresh cw (Not (AnyOf ms)) t = (layout ms (rel_all cw t) ds, t) /\
+  describe_st NotFresh cw (AllOf (map Not ms)) t = (layout (map Not ms) (rel_all cw t) ds, t).
+Proof.
+  intros cw ms t W ds. unfold ds.
+  destruct (sibling_independent cw ms (flip t)) as [Ha Ho].
+  destruct (sibling_independent cw (map Not ms) t) as [Ha' Ho'].
+  rewrite !describe_not, Ha, Ho, Ha', Ho'. cbn [fst].
+  rewrite rel_all_flip, rel_any_flip, negated_operands, mapped_operands by exact W. repeat split; reflexivity.
+Qed.
+
+Lemma de_morgan_wording : forall cw ms t, de_morgan_words cw -> existsb is_composite ms = false ->
+  describe_st NotFresh cw (Not (AllOf ms)) t = describe_st NotFresh cw (AnyOf (map Not ms)) t /\
+  describe_st NotFresh cw (Not (AnyOf ms)) t = describe_st NotFresh cw (AllOf (map Not ms)) t.
+Proof.
+  intros cw ms t W Hc. destruct (de_morgan_layout cw ms t W) as (E1 & E2 & E3 & E4).
+  rewrite E1, E2, E3, E4.
+  assert (Hl : existsb is_composite ms = existsb is_composite (map Not ms)) by (rewrite not_is_not_composite; exact Hc).
+  split; f_equal; apply layout_operands_irrelevant; exact Hl.
+Qed.
+
+Lemma source_words_de_morgan : de_morgan_words comp_of_source.
+Proof. split; reflexivity. Qed.
+
+Lemma negation_follows_logic : forall m ms t v,
+  (* not_(m) is worded as m under the flipped transformer and accepts the opposite *)
+  fst (describe_st NotFresh comp_of_source (Not m) t) = fst (describe_st NotFresh comp_of_source m (flip t)) /\
+  truth (matches (Not m) v) = rmap negb (truth (matches m v)) /\
+  (* De Morgan, wording and logic *)
+  (existsb is_composite ms = false ->
+   describe_st NotFresh comp_of_source (Not (AllOf ms)) t = describe_st NotFresh comp_of_source (AnyOf (map Not ms)) t /\
+   describe_st NotFresh comp_of_source (Not (AnyOf ms)) t = describe_st NotFresh comp_of_source (AllOf (map Not ms)) t) /\
+  truth (matches (Not (AllOf ms)) v) = truth (matches (AnyOf (map Not ms)) v) /\
+  truth (matches (Not (AnyOf ms)) v) = truth (matches (AllOf (map Not ms)) v).
+Proof.
+  intros. split; [|split; [|split; [|split]]].
+  - rewrite describe_not. reflexivity.
+  - apply not_exact.
+  - apply de_morgan_wording. exact source_words_de_morgan.
+  - apply de_morgan_all.
+  - apply de_morgan_any.
+Qed.
+
+Lemma negation_de_morgan_layout : forall ms t,
+  let ds := map (fun m => fst (describe_st NotFresh comp_of_source (Not m) t)) ms in
+  describe_st NotFresh comp_of_source (Not (AllOf ms)) t = (layout ms (rel_any comp_of_source t) ds, t) /\
+  describe_st NotFresh comp_of_source (AnyOf (map Not ms)) t = (layout (map Not ms) (rel_any comp_of_source t) ds, t) /\
+  describe_st NotFresh comp_of_source (Not (AnyOf ms)) t = (layout ms (rel_all comp_of_source t) ds, t) /\
+  describe_st NotFresh comp_of_source (AllOf (map Not ms)) t = (layout (map Not ms) (rel_all comp_of_source t) ds, t).
+Proof. intros ms t. apply de_morgan_layout. exact source_words_de_morgan. Qed.
+
+Definition gt0 := Comparator (CCmp Gt) (VInt 0).
+Definition lt10 := Comparator (CCmp Lt) (VInt 10).
+Definition eq5 := EqualTo (VInt 5).
+
+(* with an operand that is itself a composite the two sides may be laid out differently (the left one is always itemised);
+   they still show the same word and the same operand descriptions (negation_de_morgan_layout) *)
+Lemma de_morgan_wording_composite_operand : exists ms,
+  describe NotFresh comp_of_source (Not (AllOf ms)) <> describe NotFresh comp_of_source (AnyOf (map Not ms)).
+Proof. exists [gt0; AnyOf [lt10; eq5]]. intro H. vm_compute in H. discriminate H. Qed.
 
 (* the wording of a negated matcher is the negative form of the same sentence: for a leaf, transform with the flag flipped *)
-Lemma negated_leaf_wording : forall e t,
-  fst (describe_st NotFresh (Not (EqualTo e)) t) = transform (flip t) (fill tpl_equal_to [jsonify e]).
+Lemma negated_leaf_wording : forall cw e t,
+  fst (describe_st NotFresh cw (Not (EqualTo e)) t) = transform (flip t) (fill tpl_equal_to [jsonify e]).
 Proof. reflexivity. Qed.
 
 (* ------------------------------------------------------------------ pre-fix variant (NotMutates): what F9a is *)
@@ -93,36 +180,46 @@ Definition leak_operands : list matcher := [Not IsNone; Comparator (CCmp Gt) (VI
 
 (* all_of(is_not_none(), greater_than(0)): the second operand is worded in the negative although it is not negated *)
 Lemma sibling_independent_mutating_refuted : exists ms t,
-  fst (describe_st NotMutates (AllOf ms) t) <> layout ms rel_and (map (fun m => fst (describe_st NotMutates m t)) ms) /\
-  snd (describe_st NotMutates (AllOf ms) t) <> t.
+  fst (describe_st NotMutates comp_unfixed (AllOf ms) t) <>
+    layout ms (rel_all comp_unfixed t) (map (fun m => fst (describe_st NotMutates comp_unfixed m t)) ms) /\
+  snd (describe_st NotMutates comp_unfixed (AllOf ms) t) <> t.
 Proof.
   exists leak_operands, fresh. split; intro H; vm_compute in H; discriminate H.
 Qed.
 
 (* not_(not_(m)) is worded like not_(m) but accepts what m accepts *)
 Lemma double_negation_mutating_refuted : exists m v,
-  fst (describe_st NotMutates (Not (Not m)) fresh) = fst (describe_st NotMutates (Not m) fresh) /\
+  fst (describe_st NotMutates comp_unfixed (Not (Not m)) fresh) = fst (describe_st NotMutates comp_unfixed (Not m) fresh) /\
   accepts (Not (Not m)) v = true /\ accepts (Not m) v = false.
 Proof. exists IsNone, VNone. repeat split; vm_compute; reflexivity. Qed.
 
 (* ------------------------------------------------------------------ F9b: the description does not determine what was verified *)
-Definition gt0 := Comparator (CCmp Gt) (VInt 0).
-Definition lt10 := Comparator (CCmp Lt) (VInt 10).
-
-Lemma faithful_refuted_negated_composite : exists m1 m2 v,
-  describe not_of_source m1 = describe not_of_source m2 /\ accepts m1 v = true /\ accepts m2 v = false.
+(* pre-fix variant (comp_unfixed: one relationship word whatever the transformer): not_(all_of(a, b)) is worded like
+   all_of(not_(a), not_(b)).  With the words of the source (comp_of_source) the same pair is told apart. *)
+Lemma faithful_negated_composite_unfixed_refuted : exists m1 m2 v,
+  describe NotFresh comp_unfixed m1 = describe NotFresh comp_unfixed m2 /\ accepts m1 v = true /\ accepts m2 v = false /\
+  describe NotFresh comp_of_source m1 <> describe NotFresh comp_of_source m2.
 Proof.
   exists (Not (AllOf [gt0; lt10])), (AllOf [Not gt0; Not lt10]), (VInt 20).
+  repeat split; try (vm_compute; reflexivity). intro H. vm_compute in H. discriminate H.
+Qed.
+
+(* still true of the repaired code: not_(composite) is a Not object, which its parent does not see as a composite, so it is
+   joined on the parent's line without grouping:  a and (not b or not c)  reads like  (a and not b) or not c *)
+Lemma faithful_refuted_negated_operand : exists m1 m2 v,
+  describe not_of_source comp_of_source m1 = describe not_of_source comp_of_source m2 /\ accepts m1 v = true /\ accepts m2 v = false.
+Proof.
+  exists (AnyOf [Not (AnyOf [Not gt0; lt10]); Not eq5]), (AllOf [gt0; Not (AllOf [lt10; eq5])]), (VInt 0).
   repeat split; vm_compute; reflexivity.
 Qed.
 
 Lemma faithful_refuted_empty_composite : exists m1 m2 v,
-  describe not_of_source m1 = describe not_of_source m2 /\ accepts m1 v = true /\ accepts m2 v = false.
+  describe not_of_source comp_of_source m1 = describe not_of_source comp_of_source m2 /\ accepts m1 v = true /\ accepts m2 v = false.
 Proof. exists (AllOf []), (AnyOf []), VNone. repeat split; vm_compute; reflexivity. Qed.
 
 (* json.dumps turns every dict key into a string: {1: 2} and {"1": 2} are printed alike *)
 Lemma faithful_refuted_dict_key : exists m1 m2 v,
-  describe not_of_source m1 = describe not_of_source m2 /\ accepts m1 v = true /\ accepts m2 v = false.
+  describe not_of_source comp_of_source m1 = describe not_of_source comp_of_source m2 /\ accepts m1 v = true /\ accepts m2 v = false.
 Proof.
   exists (EqualTo (VDict [(KInt 1, VInt 2)])), (EqualTo (VDict [(KStr [49%N], VInt 2)])), (VDict [(KInt 1, VInt 2)]).
   repeat split; vm_compute; reflexivity.
@@ -184,7 +281,7 @@ Proof. exists false, (FAll []), (FAny []), (fun _ => true). split; [reflexivity 
 (* outside the property's fragment: a composite behind hide_result_details() is not seen as a composite by its parent and
    is rendered on the parent's line without grouping: (1 or 2) and 3 reads like 1 or (2 and 3) *)
 Lemma faithful_refuted_wrapped_composite : exists m1 m2 v,
-  describe not_of_source m1 = describe not_of_source m2 /\ accepts m1 v = true /\ accepts m2 v = false.
+  describe not_of_source comp_of_source m1 = describe not_of_source comp_of_source m2 /\ accepts m1 v = true /\ accepts m2 v = false.
 Proof.
   exists (any_of [AVal (VInt 1); AMat (hide_result_details (all_of [AVal (VInt 2); AVal (VInt 3)]))]),
          (all_of [AMat (hide_result_details (any_of [AVal (VInt 1); AVal (VInt 2)])); AVal (VInt 3)]), (VInt 1).
@@ -271,4 +368,143 @@ Lemma faithful_partial_nested : forall s1 s2 e1 e2,
 Proof.
   intros s1 s2 e1 e2 H1 H2 E val.
   rewrite <- (doc_sem_render val s1 e1 H1), <- (doc_sem_render val s2 e2 H2), E. reflexivity.
+Qed.
+
+(* ------------------------------------------------------------------ token-level faithfulness under one negation (F9b repaired) *)
+Lemma neg_lit_false : forall l, neg_lit false l = l.
+Proof. intros [id [|]]; reflexivity. Qed.
+
+Lemma lit_sem_neg : forall val b l, lit_sem val (neg_lit b l) = xorb b (lit_sem val l).
+Proof. intros val b [id n]. simpl. apply xorb_assoc. Qed.
+
+Lemma forallb_map' : forall {A B} (f : B -> bool) (g : A -> B) l, forallb f (map g l) = forallb (fun x => f (g x)) l.
+Proof. induction l as [|x l IH]; simpl; congruence. Qed.
+
+Lemma existsb_map' : forall {A B} (f : B -> bool) (g : A -> B) l, existsb f (map g l) = existsb (fun x => f (g x)) l.
+Proof. induction l as [|x l IH]; simpl; congruence. Qed.
+
+Lemma existsb_negb : forall {A} (f : A -> bool) l, existsb (fun x => negb (f x)) l = negb (forallb f l).
+Proof. induction l as [|x l IH]; simpl; auto. rewrite IH, negb_andb. reflexivity. Qed.
+
+Lemma forallb_negb : forall {A} (f : A -> bool) l, forallb (fun x => negb (f x)) l = negb (existsb f l).
+Proof. induction l as [|x l IH]; simpl; auto. rewrite IH, negb_orb. reflexivity. Qed.
+
+Lemma forallb_ext' : forall {A} (f g : A -> bool) l, (forall x, f x = g x) -> forallb f l = forallb g l.
+Proof. intros A f g l H. induction l as [|x l IH]; simpl; congruence. Qed.
+
+Lemma existsb_ext' : forall {A} (f g : A -> bool) l, (forall x, f x = g x) -> existsb f l = existsb g l.
+Proof. intros A f g l H. induction l as [|x l IH]; simpl; congruence. Qed.
+
+(* reading one line back *)
+Lemma toks_sem_line_and : forall val ls, toks_sem val (single_line_toks TAnd ls) = forallb (lit_sem val) ls.
+Proof. intros. unfold toks_sem. rewrite single_line_or_and, single_line_lits; auto. Qed.
+
+Lemma toks_sem_line_or : forall val ls, ls <> [] -> toks_sem val (single_line_toks TOr ls) = existsb (lit_sem val) ls.
+Proof.
+  intros val ls Hne. unfold toks_sem. rewrite single_line_or_or, single_line_lits; auto.
+  destruct ls as [|l [|l' r]]; try congruence; simpl; rewrite ?andb_true_r, ?orb_false_r; reflexivity.
+Qed.
+
+(* reading an itemised list back *)
+Lemma doc_items_sems : forall val rel ds first,
+  forallb (fun it => doc_sem val (snd it)) (doc_items rel ds first) = forallb (doc_sem val) ds /\
+  existsb (fun it => doc_sem val (snd it)) (doc_items rel ds first) = existsb (doc_sem val) ds.
+Proof.
+  intros val rel ds. induction ds as [|d r IH]; intro first; simpl; auto.
+  destruct (IH false) as [Ha He]. rewrite Ha, He. auto.
+Qed.
+
+Lemma doc_sem_items_and : forall val ds, doc_sem val (DItems (doc_items TAnd ds true)) = forallb (doc_sem val) ds.
+Proof. intros. cbn [doc_sem]. rewrite doc_items_or_and. apply doc_items_sems. Qed.
+
+Lemma doc_sem_items_or : forall val ds, ds <> [] -> doc_sem val (DItems (doc_items TOr ds true)) = existsb (doc_sem val) ds.
+Proof.
+  intros val ds Hne. cbn [doc_sem]. rewrite doc_items_or_or. destruct (doc_items_sems val TOr ds true) as [Ha He].
+  destruct ds as [|d [|d' r]]; [congruence | | exact He].
+  rewrite Ha. simpl. rewrite andb_true_r, orb_false_r. reflexivity.
+Qed.
+
+Lemma operand_sems : forall val single b es,
+  Forall (fun e => fexpr_wf e = true -> doc_sem val (render_under single b e) = xorb b (fsem val e)) es ->
+  forallb fexpr_wf es = true ->
+  map (doc_sem val) (map (render_under single b) es) = map (fun e => xorb b (fsem val e)) es.
+Proof.
+  intros val single b es H. induction H as [|e es He Hes IH]; intro Hwf; simpl; auto.
+  simpl in Hwf. apply andb_true_iff in Hwf. destruct Hwf as [Hwe Hwes]. rewrite He, IH; auto.
+Qed.
+
+Lemma forallb_as_map : forall {A} (f : A -> bool) l, forallb f l = forallb (fun b => b) (map f l).
+Proof. intros. rewrite forallb_map'. reflexivity. Qed.
+
+Lemma existsb_as_map : forall {A} (f : A -> bool) l, existsb f l = existsb (fun b => b) (map f l).
+Proof. intros. rewrite existsb_map'. reflexivity. Qed.
+
+(* the description of e under a transformer with negation flag b reads as: e negated iff b *)
+Lemma doc_sem_render_under : forall val single b e, fexpr_wf e = true -> doc_sem val (render_under single b e) = xorb b (fsem val e).
+Proof.
+  intros val single b. induction e using fexpr_ind'; intro Hwf.
+  - cbn [render_under doc_sem]. unfold toks_sem. cbn [toks_has_or toks_lits forallb fsem]. rewrite andb_true_r. apply lit_sem_neg.
+  - simpl in Hwf. destruct es as [|e0 es0]; try discriminate.
+    assert (Hne : e0 :: es0 <> []) by discriminate.
+    cbn [render_under]. destruct (forallb fexpr_is_lit (e0 :: es0) && single b (e0 :: es0)) eqn:E.
+    + apply andb_true_iff in E. destruct E as [El _]. cbn [doc_sem fsem].
+      destruct (all_lits_sem val _ El) as [Ha He]. pose proof (all_lits_length _ El) as Hlen. rewrite Ha.
+      destruct b; cbn [tok_all].
+      * rewrite toks_sem_line_or, existsb_map'.
+        -- rewrite (existsb_ext' _ (fun l => negb (lit_sem val l))) by (intro l; rewrite lit_sem_neg; apply xorb_true_l).
+           rewrite existsb_negb. symmetry. apply xorb_true_l.
+        -- destruct (fexpr_lits (e0 :: es0)); [discriminate Hlen | discriminate].
+      * rewrite toks_sem_line_and, forallb_map'.
+        rewrite (forallb_ext' _ (lit_sem val)) by (intro l; rewrite neg_lit_false; reflexivity). symmetry. apply xorb_false_l.
+    + cbn [fsem]. pose proof (operand_sems val single b _ H Hwf) as Hm.
+      destruct b; cbn [tok_all].
+      * rewrite doc_sem_items_or by (simpl; discriminate).
+        rewrite existsb_as_map, Hm, <- existsb_as_map.
+        rewrite (existsb_ext' _ (fun e => negb (fsem val e))) by (intro e; apply xorb_true_l).
+        rewrite existsb_negb. symmetry. apply xorb_true_l.
+      * rewrite doc_sem_items_and. rewrite forallb_as_map, Hm, <- forallb_as_map.
+        rewrite (forallb_ext' _ (fsem val)) by (intro e; apply xorb_false_l). symmetry. apply xorb_false_l.
+  - simpl in Hwf. destruct es as [|e0 es0]; try discriminate.
+    assert (Hne : e0 :: es0 <> []) by discriminate.
+    cbn [render_under]. destruct (forallb fexpr_is_lit (e0 :: es0) && single b (e0 :: es0)) eqn:E.
+    + apply andb_true_iff in E. destruct E as [El _]. cbn [doc_sem fsem].
+      destruct (all_lits_sem val _ El) as [Ha He]. pose proof (all_lits_length _ El) as Hlen. rewrite He.
+      destruct b; cbn [tok_any].
+      * rewrite toks_sem_line_and, forallb_map'.
+        rewrite (forallb_ext' _ (fun l => negb (lit_sem val l))) by (intro l; rewrite lit_sem_neg; apply xorb_true_l).
+        rewrite forallb_negb. symmetry. apply xorb_true_l.
+      * rewrite toks_sem_line_or, existsb_map'.
+        -- rewrite (existsb_ext' _ (lit_sem val)) by (intro l; rewrite neg_lit_false; reflexivity). symmetry. apply xorb_false_l.
+        -- destruct (fexpr_lits (e0 :: es0)); [discriminate Hlen | discriminate].
+    + cbn [fsem]. pose proof (operand_sems val single b _ H Hwf) as Hm.
+      destruct b; cbn [tok_any].
+      * rewrite doc_sem_items_and. rewrite forallb_as_map, Hm, <- forallb_as_map.
+        rewrite (forallb_ext' _ (fun e => negb (fsem val e))) by (intro e; apply xorb_true_l).
+        rewrite forallb_negb. symmetry. apply xorb_true_l.
+      * rewrite doc_sem_items_or by (simpl; discriminate).
+        rewrite existsb_as_map, Hm, <- existsb_as_map.
+        rewrite (existsb_ext' _ (fsem val)) by (intro e; apply xorb_false_l). symmetry. apply xorb_false_l.
+Qed.
+
+(* render_under with the flag off is render *)
+Lemma render_under_false : forall single e, render_under single false e = render (single false) e.
+Proof.
+  intros single. induction e using fexpr_ind'; cbn [render_under render tok_all tok_any].
+  - rewrite neg_lit_false. reflexivity.
+  - rewrite (map_ext _ (fun l => l) neg_lit_false), map_id.
+    replace (map (render_under single false) es) with (map (render (single false)) es); auto.
+    induction H as [|e es He Hes IH]; simpl; congruence.
+  - rewrite (map_ext _ (fun l => l) neg_lit_false), map_id.
+    replace (map (render_under single false) es) with (map (render (single false)) es); auto.
+    induction H as [|e es He Hes IH]; simpl; congruence.
+Qed.
+
+(* C17_faithful_partial, extended: expressions under zero or one not_ *)
+Lemma faithful_partial_negated : forall s1 s2 b1 b2 e1 e2,
+  fexpr_wf e1 = true -> fexpr_wf e2 = true ->
+  render_under s1 b1 e1 = render_under s2 b2 e2 ->
+  forall val, xorb b1 (fsem val e1) = xorb b2 (fsem val e2).
+Proof.
+  intros s1 s2 b1 b2 e1 e2 H1 H2 E val.
+  rewrite <- (doc_sem_render_under val s1 b1 e1 H1), <- (doc_sem_render_under val s2 b2 e2 H2), E. reflexivity.
 Qed.
